@@ -22,6 +22,19 @@ route to the dew point (rh, humidity ratio, enthalpy, wet bulb) describes the sa
 every chart vertex inverts to its state, and a slice of the stream holds in fresh processes in several orders
 (`order`, replayable).  See the block comment "ROUND 3" below for the producer -> consumer list.
 
+Round 4 (input shapes, aliasing, override gaps, caller/callee conventions, numeric edges, rare branches; see the
+block comment "ROUND 4" near the end for the list of concrete classes, branches -> counted strata, and call
+conventions): charts are built from every accepted collection class (hourly / sub-hourly continuous, discontinuous
+with unsorted and repeated datetimes, daily, the immutable twins), from numbers given as int / text / exponent text,
+through the constructor and a hand-written reversed-order dictionary, with fractional limits and other maximum
+humidity ratios; every curve family is checked against the relation it draws (rh-curve cut-off vertex, enthalpy
+lines = constant enthalpy with the unit / reference of the chart, wet-bulb lines on db_temp_and_hr_from_wb_rh,
+humidity-ratio lines, mesh vertices on 5 % curves, 4- and 5-vertex border) and the rh curves below the cut-off
+against the Lean model (`drv_c09 rhline`, Model/PsychroChart.lean); design days are read through IDF text in other
+legal forms (exponent notation, CRLF, one line, padding, leading +), reversed dictionaries, tuples, the 99.0 % /
+1.0 % ASHRAE rows, and every list / dict / collection they hand out is edited in place between the reads;
+psychrometrics.py is called by keyword, with magnitudes 1e-12 .. 1e+16 and with one counted stratum per branch.
+
 Partial by nature (DESIGN.md section 9): everything that needs certified numerics of exp/log (solver
 outputs, Magnus closeness, continuity at 0 C, monotonicity across the branch point) is a *sampled
 sub-claim* evaluated by the oracle on the real code and reported under `sampled_subclaims`.
@@ -34,6 +47,7 @@ from harness import core
 PROP = 'C09'
 PROOF_MODULES = ['Ladybug.Props.C09', 'Ladybug.Proofs.C09Gen']
 GREP_MODULES = ['Ladybug.Transc', 'Ladybug.RealInst', 'Ladybug.Model.Psychro', 'Ladybug.Model.PsychroObj',
+                'Ladybug.Model.PsychroChart',
                 'Ladybug.Proofs.C09Lemmas', 'Ladybug.Proofs.C09Obj',
                 'Ladybug.Gen.PsychroFormulas',
                 'Ladybug.Drv.C09', 'Ladybug.DrvCore']
@@ -48,7 +62,12 @@ RULE = ('correspondence: every function of psychrometrics.py + HumidityCondition
         'values), read histories on one chart (SI/IP, 24 values / scalar inputs / single value, refused '
         'constructions and calls in between), call histories of psychrometrics.py (one component changed between '
         'consecutive calls, repeated, defaults omitted, ints, dry air, calls that fail inside), strata: dry bulb '
-        'above with dew point below 0 C, dry air through every route; the same cases in fresh processes in 2-4 orders')
+        'above with dew point below 0 C, dry air through every route; the same cases in fresh processes in 2-4 orders. '
+        'Round 4: chart x collection class (8 kinds incl. immutable twins, sub-hourly, unsorted discontinuous) x '
+        'container x scalar given as int / text / exponent text x entry (constructor, reversed dictionary) x maximum '
+        'humidity ratio x fractional limits; design day x text form of the IDF / dictionary order / tuple; returned '
+        'containers edited in place between reads; keyword calls; magnitudes 1e-12..1e+16; one counted stratum per '
+        'branch of the anchored functions (branch:* counters)')
 EXTRACTORS = 'tools/extract/psychro_formulas.py'
 TRUSTED_BASE = [
     'translator tools/extract/pyexpr2lean.py + psychro_formulas.py (Python ast -> Lean for straight-line numeric '
@@ -75,9 +94,13 @@ TRUSTED_BASE = [
     'object histories: the Lean state machine has no hidden state by construction (that is the specification); that '
     'the real objects behave like it is compared on generated histories (not proved about the Python classes); '
     'the validation rules of the setters (which arguments are refused) are transcribed by hand from designday.py',
-    'chart curves other than plot_point / data_points (rh lines, saturation line, temperature lines, border) are '
-    'checked by the oracle against the statement formula; enthalpy / wet-bulb lines, humidity-ratio lines, mesh '
-    'vertices only against a fresh chart and a repeated read (drawn geometry, no closed statement)',
+    'chart curves: rh lines below the cut-off are modelled (Model/PsychroChart.lean, compared through `rhline`); '
+    'saturation line, temperature lines, border, the cut-off vertex, enthalpy / wet-bulb / humidity-ratio lines and '
+    'mesh vertices are checked by the oracle against the relation they draw (composed from the psychrometric '
+    'functions; the clipping of the lines against the border is drawn geometry and only compared with a fresh '
+    'chart); label points only against a fresh chart and a repeated read',
+    'the lists returned by enthalpy_lines / wb_lines / hr_lines / temperature_lines are not edited in place by the '
+    'histories (enthalpy_lines and wb_lines hand out the chart\'s internal list on the unchanged tree)',
     'skymodel.calc_horizontal_infrared (consumer of the hourly dew point) is compared with a fresh object only',
 ]
 ASSUMPTIONS = ['meteorological range: dry bulb -40..55 C, rh 0..100 %, pressure 60..105 kPa',
@@ -95,7 +118,12 @@ LEVEL_TEXT = ('Lean 4 theorems over R about one polymorphic model of psychrometr
               'observation after any history equals that of a fresh object of the established public state, refused '
               'operations preserve every observation, reads are pure and order-independent; dry air has dew point '
               '-273.15 through every route; chart vertices invert to their state; the real objects are compared with '
-              'the state machine step by step on generated histories, in several process orders.')
+              'the state machine step by step on generated histories, in several process orders. Round 4: both '
+              'points an enthalpy line is drawn through are states of the labelled enthalpy (and, with the proposed '
+              'repair, so is the upper end read back through the chart axes on SI and IP charts; the unrepaired code '
+              'is refuted on a witness), the upper end of a wet-bulb line is the saturation state, every vertex of a '
+              'relative-humidity curve below the cut-off is the plotted point of a state of that humidity, for any '
+              'list of temperatures (prefix-stable).')
 LEVEL_NOTE = ('partial: solver accuracy, monotonicity of dew point / wet bulb in rh, svp monotone across 273.15 K, '
               'continuity at 0 C and Magnus closeness are sampled sub-claims; float-vs-real gap trusted')
 TECHNIQUE = ('Lean 4 proof over R (HasDerivAt, field_simp/nlinarith, induction on the bisection fuel) about a '
@@ -334,13 +362,14 @@ def correspondence(ctx):
     _corr_designday(ctx)
     _corr_chart(ctx)
     _corr_round3(ctx)
+    _corr_round4(ctx)
 
 
 class _DbStub(object):
     """Stands in for DryBulbCondition: only the two attributes hourly_dew_point_values reads."""
 
-    def __init__(self, hourly):
-        self.hourly_values = list(hourly)
+    def __init__(self, hourly, as_tuple=False):
+        self.hourly_values = tuple(hourly) if as_tuple else list(hourly)
         self.dry_bulb_max = max(hourly)
 
 
@@ -473,7 +502,7 @@ def _chart_params(rng):
     return use_ip, bx, by, xd, yd, tmin, tmax, p
 
 
-def _make_chart(par, tvals, rhvals):
+def _make_chart(par, tvals, rhvals, hrmax=0.03):
     from ladybug.psychchart import PsychrometricChart
     from ladybug.datacollection import HourlyContinuousCollection
     from ladybug.header import Header
@@ -485,7 +514,7 @@ def _make_chart(par, tvals, rhvals):
     ap = AnalysisPeriod(1, 1, 0, 1, 1, 23)
     t = HourlyContinuousCollection(Header(DryBulbTemperature(), 'C', ap), list(tvals))
     r = HourlyContinuousCollection(Header(RelativeHumidity(), '%', ap), list(rhvals))
-    return PsychrometricChart(t, r, p, None, Point2D(bx, by), xd, yd, tmin, tmax, 0.03, use_ip)
+    return PsychrometricChart(t, r, p, None, Point2D(bx, by), xd, yd, tmin, tmax, hrmax, use_ip)
 
 
 def _chart_data(rng, par):
@@ -561,6 +590,13 @@ _SUB = []      # (name, ok) pairs of the case being evaluated, flushed into ctx.
 def _sub(name, ok):
     _SUB.append((name, bool(ok)))
     return ok
+
+
+_CNT = []      # counted strata / branches of the case being evaluated, flushed into ctx.count by oracle()
+
+
+def _cnt(key):
+    _CNT.append(key)
 
 
 def _bucket(x, edges):
@@ -739,12 +775,15 @@ def check_case(op, inp):
         from ladybug.designday import HumidityCondition
         ty, v, p, hourly = inp['type'], inp['value'], inp['p'], inp['hourly']
         hc = HumidityCondition(ty, v, p)
-        stub = _DbStub(hourly)
+        stub = _DbStub(hourly, inp.get('stub') == 'tuple')
         dbm = stub.dry_bulb_max
         day = hc.dew_point(dbm)
         if day == -273.15:           # the humidity value describes no state (rh <= 0): outside the property
             return None
         dpts = hc.hourly_dew_point_values(stub)
+        if not _sub('dd_hourly_length', len(dpts) == len(hourly)):
+            return _fail('one dew point per hourly dry bulb (%d)' % len(hourly), len(dpts), clause='dd_len', type=ty)
+        _cnt('branch:dd_hour_capped' if any(d < day for d in hourly) else 'branch:dd_all_hours_uncapped')
         for dbh, dp in zip(hourly, dpts):
             if not _sub('dd_dew_le_db', dp <= dbh and (dp == day or dp == dbh)):
                 return _fail('hourly dew point = min(day dew point, dry bulb)', [dbh, dp, day], clause='dd_cap', type=ty)
@@ -841,6 +880,7 @@ def check_case(op, inp):
 
 def replay(op, inp):
     del _SUB[:]
+    del _CNT[:]
     return check_case(op, inp)
 
 
@@ -931,7 +971,7 @@ def _oracle_cases(ctx):
         yield 'derivative', {'db': _db(rng)}
     for _ in range(n // 10):
         ty, v, p, hourly = _dd_case(rng)
-        yield 'designday', {'type': ty, 'value': v, 'p': p, 'hourly': hourly}
+        yield 'designday', {'type': ty, 'value': v, 'p': p, 'hourly': hourly, 'stub': rng.choice(['list', 'tuple'])}
     for _ in range(25 if big else 3):
         for ty in ('Dewpoint', 'Wetbulb', 'HumidityRatio', 'Enthalpy'):
             for humid in (True, False):
@@ -952,11 +992,14 @@ def oracle(ctx):
 
     def run(op, inp):
         del _SUB[:]
+        del _CNT[:]
         try:
             res = check_case(op, inp)
         finally:
             for name, ok in _SUB:
                 ctx.subclaim(name, ok)
+            for k in _CNT:
+                ctx.count(k)
         if res:
             # keep at most 3 failing inputs per signature so that one (possibly known) defect does not
             # exhaust the failure budget of the search; every failure is still counted in the sub-claim
@@ -1068,10 +1111,25 @@ def _dd_apply(st, name, arg):
     return st, 'read'
 
 
-def _idf_text(st, name='d'):
+def _idf_restyle(text, style):
+    """The same IDF object in another legal text form (kind i): numbers in exponent notation happen in
+    _idf_text; here line ends, comments and padding."""
+    if style == 'crlf':
+        return text.replace('\n', '\r\n')
+    if style == 'oneline':          # no comments, everything on one line
+        body = [ln.split('!')[0].strip() for ln in text.split('\n')]
+        return ''.join(b for b in body if b) + '\n'
+    if style == 'pad':
+        return '\n\n   ' + text.replace(',    !-', '  ,\t!-') + '\n\n'
+    return text
+
+
+def _idf_text(st, name='d', style=None):
     """A SizingPeriod:DesignDay object written by hand in the field order of the EnergyPlus IDD
     (Wetbulb/Dewpoint in field 10 [C], humidity ratio in field 12 [kg/kg], enthalpy in field 13 [J/kg])."""
     ty, v = st['type'], st['value']
+    repr = (lambda x: '%.16E' % x) if style == 'exp' else (lambda x: '+' + __builtins_repr(x) if style == 'pad' and x > 0
+                                                          else __builtins_repr(x))
     f10 = repr(v) if ty in ('Wetbulb', 'Dewpoint') else ''
     f12 = repr(v) if ty == 'HumidityRatio' else ''
     f13 = repr(v) if ty == 'Enthalpy' else ''
@@ -1091,7 +1149,10 @@ def _idf_text(st, name='d'):
     out = ['SizingPeriod:DesignDay,\n']
     for i, (val, com) in enumerate(rows):
         out.append('  %s%s    !- %s\n' % (val, ';' if i == len(rows) - 1 else ',', com))
-    return ''.join(out)
+    return _idf_restyle(''.join(out), style)
+
+
+__builtins_repr = repr
 
 
 def _idf_parse(text):
@@ -1112,8 +1173,9 @@ def _dd_location():
     return Location('c09', '-', '-', 40.0, -75.0, -5.0, 10.0)
 
 
-def _dd_build(entry, st):
-    """One real DesignDay with the stated humidity / dry-bulb inputs, through one of the public entry points."""
+def _dd_build(entry, st, style=None):
+    """One real DesignDay with the stated humidity / dry-bulb inputs, through one of the public entry points
+    (style: another legal form of the same input - text form of the IDF, key order of the dictionary, tuple for list)."""
     from ladybug.designday import (DesignDay, DryBulbCondition, HumidityCondition, WindCondition, ASHRAEClearSky)
     from ladybug.dt import Date
     loc = _dd_location()
@@ -1124,9 +1186,9 @@ def _dd_build(entry, st):
     if entry == 'props':
         return DesignDay.from_design_day_properties(
             'd', 'SummerDesignDay', loc, Date(7, 21), st['db_max'], st['db_range'], st['type'], st['value'],
-            st['p'], 2.0, 180.0, 'ASHRAEClearSky', [1.0])
+            st['p'], 2.0, 180.0, 'ASHRAEClearSky', (1.0,) if style else [1.0])
     if entry == 'dict':
-        return DesignDay.from_dict({
+        return DesignDay.from_dict((_rev_dict if style else dict)({
             'type': 'DesignDay', 'name': 'd', 'day_type': 'SummerDesignDay',
             'location': {'type': 'Location', 'city': 'c09', 'latitude': 40.0, 'longitude': -75.0,
                          'time_zone': -5.0, 'elevation': 10.0},
@@ -1135,9 +1197,9 @@ def _dd_build(entry, st):
             'humidity_condition': {'type': 'HumidityCondition', 'humidity_type': st['type'],
                                    'humidity_value': st['value'], 'barometric_pressure': st['p']},
             'wind_condition': {'type': 'WindCondition', 'wind_speed': 2.0, 'wind_direction': 180.0},
-            'sky_condition': {'type': 'ASHRAEClearSky', 'date': [7, 21], 'clearness': 1.0}})
+            'sky_condition': {'type': 'ASHRAEClearSky', 'date': [7, 21], 'clearness': 1.0}}))
     if entry == 'idf':
-        return DesignDay.from_idf(_idf_text(st), loc)
+        return DesignDay.from_idf(_idf_text(st, 'd', style), loc)
     if entry == 'ddy':
         import shutil
         import tempfile
@@ -1148,12 +1210,17 @@ def _dd_build(entry, st):
             with open(path, 'w') as f:
                 f.write('Site:Location,\n  c09,    !- Name\n  40.0,    !- Latitude\n  -75.0,    !- Longitude\n'
                         '  -5.0,    !- Time Zone\n  10.0;    !- Elevation\n\n')
-                f.write(_idf_text(st))
+                f.write(_idf_text(st, 'd', None if style == 'oneline' else style))
                 f.write('\n')
             return DDY.from_ddy_file(path).design_days[0]
         finally:
             shutil.rmtree(d, ignore_errors=True)
     raise ValueError(entry)
+
+
+def _rev_dict(d):
+    """The same dictionary with every level in reverse insertion order."""
+    return dict((k, _rev_dict(v) if isinstance(v, dict) else v) for k, v in reversed(list(d.items())))
 
 
 def _dd_profiles(dd):
@@ -1199,6 +1266,43 @@ def _dd_read(dd, name, arg):
         except Exception:
             pass                       # the duplicate's new inputs need not describe a state
         return []
+    if name == 'edit_hdpv':            # the list handed out is the caller's: editing it must not change later answers
+        l = hc.hourly_dew_point_values(dbc)
+        if isinstance(l, list):
+            l.reverse()
+            l[:] = [x + 50.0 for x in l][:7]
+        return []
+    if name == 'edit_hdb':
+        l = dbc.hourly_values
+        if isinstance(l, list):
+            l[:] = [-99.0] * 3
+        return []
+    if name == 'edit_hp':
+        l = hc.hourly_pressure
+        if isinstance(l, list):
+            l[:] = [1.0] * 24
+        return []
+    if name == 'edit_dict':
+        for d in (dd.to_dict(), {'humidity_condition': hc.to_dict(), 'dry_bulb_condition': dbc.to_dict()}):
+            d['humidity_condition']['barometric_pressure'] = 5.0
+            d['humidity_condition']['humidity_value'] = -99
+            d['humidity_condition']['humidity_type'] = 'Dewpoint'
+            d['dry_bulb_condition'].clear()
+        return []
+    if name == 'edit_coll':
+        for c in (dd.hourly_dew_point, dd.hourly_relative_humidity, dd.hourly_dry_bulb, dd.hourly_barometric_pressure):
+            c.values = [0.5] * 24
+            c[3] = 77.0
+            c.header.metadata['city'] = 'edited'
+        return []
+    if name == 'keep':                 # keep a result, ask again, edit the second answer: the first is unchanged
+        a = hc.hourly_dew_point_values(dbc)
+        b = hc.hourly_dew_point_values(dbc)
+        if isinstance(b, list):
+            b[:] = [0.0]
+        c = dd.hourly_dew_point
+        dd.hourly_dew_point.values = [1.0] * 24
+        return list(a) if list(a) == list(c.values) else list(a) + [float('nan')]
     if name == 'redict':
         return _dd_profiles(type(dd).from_dict(dd.to_dict()))
     if name == 'reidf':
@@ -1252,7 +1356,7 @@ def _dd_run(inp):
         t = dict(inp['init'])
         t.update(inp['twin'])
         sts.append(t)
-    objs = [_dd_build(inp['entry'], s) for s in sts]
+    objs = [_dd_build(inp['entry'], s, inp.get('style')) for s in sts]
     out = []
     for k, name, arg in inp['ops']:
         res = _dd_do(objs[k], name, arg)
@@ -1288,7 +1392,7 @@ def _dd_tokens(name, arg):
     if name == 'bad_dbc':
         return ['R:?']
     return {'dew': ['d'], 'dew_at': ['a:' + _fbits(arg)] if name == 'dew_at' else None, 'hdb': ['b'], 'hdew': ['h'],
-            'hdpv': ['h'], 'hrh': ['r'], 'hp': ['p'], 'dup': ['h', 'r'], 'redict': ['h', 'r'],
+            'hdpv': ['h'], 'keep': ['h'], 'hrh': ['r'], 'hp': ['p'], 'dup': ['h', 'r'], 'redict': ['h', 'r'],
             'reidf': ['h', 'r']}.get(name)
 
 
@@ -1379,6 +1483,8 @@ def _dd_history_case(rng, ctx=None, entry=None, rare=None):
         ty = st['type']
     entry = entry or rng.choice(DD_ENTRIES)
     inp = {'entry': entry, 'init': st, 'twin': None, 'ops': []}
+    if rng.random() < 0.5:
+        inp['style'] = rng.choice(['exp', 'crlf', 'oneline', 'pad', 'exp'])     # another legal form of the same input
     if rng.random() < 0.35:
         f = rng.choice(['value', 'p', 'db_max', 'db_range', 'type'])
         if f == 'type':
@@ -1398,8 +1504,8 @@ def _dd_history_case(rng, ctx=None, entry=None, rare=None):
         t.update(inp['twin'])
         sts.append(t)
     reads = ['dew', 'hdew', 'hrh', 'hdpv', 'hp', 'hdb', 'dew_at', 'hir', 'dict', 'idf', 'dup', 'redict', 'reidf',
-             'dup_set']
-    wts = [3, 4, 4, 3, 1, 1, 2, 1, 1, 1, 1, 1, 1, 1]
+             'dup_set', 'edit_hdpv', 'edit_hdb', 'edit_hp', 'edit_dict', 'edit_coll', 'keep']
+    wts = [3, 4, 4, 3, 1, 1, 2, 1, 1, 1, 1, 1, 1, 1, 1, 1, 0.5, 0.7, 0.7, 1]
     n = rng.randrange(5, 13)
     ops = []
     for i in range(n):
@@ -1459,11 +1565,12 @@ def _dd_history_case(rng, ctx=None, entry=None, rare=None):
             v = _hum_value(rng, arg, sts[k]['db_max'], sts[k]['p'] or 101325.0)
             ops.append([k, 'value', v])
             sts[k], _ = _dd_apply(sts[k], 'value', v)
-        if verdict != 'read' and rng.random() < 0.7:
+        if (verdict != 'read' or name.startswith('edit_')) and rng.random() < 0.7:
             ops.append([k, rng.choice(['hdew', 'hrh', 'dew', 'hdpv']), None])
     inp['ops'] = ops
     if ctx is not None:
         ctx.count('ddhist:entry:' + entry)
+        ctx.count('ddhist:style:' + str(inp.get('style')))
         ctx.count('ddhist:type:' + st['type'])
         if inp['twin']:
             ctx.count('ddhist:twin')
@@ -1508,7 +1615,7 @@ def _dd_expected(st, name, arg):
             r = [day(arg)]
         elif name == 'hdb':
             r = hourly_db()
-        elif name in ('hdew', 'hdpv'):
+        elif name in ('hdew', 'hdpv', 'keep'):
             d = day(st['db_max'])
             r = [d if db >= d else db for db in hourly_db()]
         elif name == 'hrh':
@@ -1520,7 +1627,7 @@ def _dd_expected(st, name, arg):
         elif name in ('dup', 'redict', 'reidf'):
             a, b = profiles()
             r = a + b
-        elif name == 'dup_set':
+        elif name == 'dup_set' or name.startswith('edit_'):
             r = []
         else:
             return None
@@ -1570,6 +1677,8 @@ def _check_dd_history(inp):
                 return None
             last_change[k] = 'refused:' + name
             continue
+        if name.startswith('edit_'):
+            continue                     # the caller edits what was handed out: only the later reads matter
         want = _dd_expected(st, name, arg)
         if want is None:
             # derived quantity without a closed statement here (infrared): a fresh object of the same public state
@@ -1620,7 +1729,7 @@ def _check_dd_entry(inp):
         rh_in = ps.rel_humid_from_db_enth(dbm, v / 1000.0, p)
     for entry in inp.get('entries', DD_ENTRIES):
         try:
-            dd = _dd_build(entry, st)
+            dd = _dd_build(entry, st, inp.get('style'))
         except Exception as e:
             _sub('ddentry_builds', False)
             return _fail('entry point %s builds the design day' % entry, 'raises %s: %s' % (type(e).__name__, e),
@@ -1657,13 +1766,19 @@ def _check_dd_ashrae(inp):
     heat = {'Month': '1', 'DB996': repr(db), 'DB990': repr(db + 1.5), 'WS_DB996': '3.1', 'WD_DB996': '270'}
     cool = {'Month': '7', 'DBR': repr(dbr), 'DB004': repr(db), 'WB_DB004': repr(wb), 'DB010': repr(db - 1.0),
             'WB_DB010': repr(wb - 0.5), 'WS_DB004': '3.9', 'WD_DB004': '230'}
+    alt = bool(inp.get('alt'))           # the 99.0 % / 1.0 % variants (use_990, use_010) of the same rows
+    if alt:
+        heat, cool = _rev_dict(heat), _rev_dict(cool)
+    _cnt('ddashrae:%s:%s' % ('alt' if alt else 'default', 'p_default' if p is None else 'p_given'))
     for kind in ('heating', 'cooling'):
         if kind == 'heating':
-            dd = DesignDay.from_ashrae_dict_heating(heat, loc, False, p)
-            st = {'type': 'Wetbulb', 'value': db, 'p': 101325 if p is None else p, 'db_max': db, 'db_range': 0}
+            dd = DesignDay.from_ashrae_dict_heating(heat, loc, alt, p)
+            d1 = db + 1.5 if alt else db
+            st = {'type': 'Wetbulb', 'value': d1, 'p': 101325 if p is None else p, 'db_max': d1, 'db_range': 0}
         else:
-            dd = DesignDay.from_ashrae_dict_cooling(cool, loc, False, p)
-            st = {'type': 'Wetbulb', 'value': wb, 'p': 101325 if p is None else p, 'db_max': db, 'db_range': dbr}
+            dd = DesignDay.from_ashrae_dict_cooling(cool, loc, alt, p)
+            st = {'type': 'Wetbulb', 'value': wb - 0.5 if alt else wb, 'p': 101325 if p is None else p,
+                  'db_max': db - 1.0 if alt else db, 'db_range': dbr}
         for name in ('dew', 'hdew', 'hrh', 'hp', 'dict'):
             want, got = _dd_expected(st, name, None), _dd_do(dd, name, None)
             ok = _same_outcome(want, got) or (want[0] == 'zero' and got[0] in ('zero', 'raises'))
@@ -1671,7 +1786,7 @@ def _check_dd_ashrae(inp):
             if not ok:
                 return _fail('%s of the %s design day from the ASHRAE row = %r' % (name, kind, _short(want)),
                              _short(got), clause='ddashrae_read', read=name, kind=kind,
-                             pressure='default' if p is None else 'given')
+                             pressure='default' if p is None else 'given', alt=alt)
     return None
 
 
@@ -1761,7 +1876,7 @@ def _chart_refused(kind, par, tv, rv):
     raise ValueError(kind)
 
 
-def _chart_expected(par, tv, rv, name, arg):
+def _chart_expected(par, tv, rv, name, arg, hrmax=0.03):
     """Chart coordinates from the statement: x = base.x + x_dim * (t - t_min) in the chart's unit,
     y = base.y + y_dim * humidity ratio of the state (humid_ratio_from_db_rh)."""
     from ladybug import psychrometrics as ps
@@ -1782,7 +1897,7 @@ def _chart_expected(par, tv, rv, name, arg):
         top = []
         for t in ts:
             tc = (t - 32.) * 5. / 9. if use_ip else t
-            top.append(min(ps.humid_ratio_from_db_rh(tc, 100, p), 0.03))
+            top.append(min(ps.humid_ratio_from_db_rh(tc, 100, p), hrmax))
         if name == 'tlines':
             out = []
             for t, h in zip(ts, top):
@@ -1822,23 +1937,31 @@ def _chart_history_case(rng, ctx=None):
         ctx.count('charthist:' + ('ip' if use_ip else 'si'))
         ctx.count('charthist:shape:' + shape)
         ctx.count('charthist:refused_first:' + str(refused))
-    return {'par': list(par), 't': tv, 'rh': rv, 'shape': shape, 'reads': reads, 'refused_first': refused}
+    inp = {'par': list(par), 't': tv, 'rh': rv, 'shape': shape, 'reads': reads, 'refused_first': refused}
+    if rng.random() < 0.65:
+        _chart_r4_shape(rng, inp, ctx)
+    return inp
 
 
 def _chart_inputs(inp):
     """(t values, rh values, constructor inputs) of a chart history: 24 hourly values, one scalar + a collection,
     or one-value-long input."""
     tv, rv, shape = list(inp['t']), list(inp['rh']), inp.get('shape', '24')
+    rep = {'sub2': 2, 'sub4': 4}.get(inp.get('coll', 'hourly'), 1)
+    if rep > 1 and shape != 'one':
+        tv, rv = tv * rep, rv * rep            # a sub-hourly collection: 48 / 96 values
     if shape == 'scalar_t':
-        tv = [tv[0]] * 24
+        tv = [tv[0]] * len(tv)
     elif shape == 'scalar_rh':
-        rv = [rv[0]] * 24
+        rv = [rv[0]] * len(rv)
     elif shape == 'one':
         tv, rv = tv[:1], rv[:1]
     return tv, rv
 
 
 def _chart_make(inp):
+    if any(k in inp for k in _CHART_R4_KEYS):
+        return _chart_make_r4(inp)
     from ladybug.psychchart import PsychrometricChart
     from ladybug_geometry.geometry2d.pointvector import Point2D
     par = tuple(inp['par'])
@@ -1866,7 +1989,12 @@ def _chart_run(inp):
             first = type(e).__name__
     else:
         first = None
-    ch = _chart_make(inp)
+    try:
+        ch = _chart_make(inp)
+    except Exception as e:
+        if not any(k in inp for k in _CHART_R4_KEYS):
+            raise
+        return ('unbuildable', type(e).__name__ + ': ' + str(e)[:120]), []
     return first, [(name, arg, _chart_do(ch, name, arg)) for name, arg in inp['reads']]
 
 
@@ -1874,34 +2002,73 @@ def _check_chart_history(inp):
     from ladybug import psychrometrics as ps
     par = tuple(inp['par'])
     use_ip, bx, by, xd, yd, tmin, tmax, p = par
+    hrmax = inp.get('hrmax', 0.03)
     tv, rv = _chart_inputs(inp)
     first, recs = _chart_run(inp)
+    if isinstance(first, tuple):
+        # the chart of this shape could not be built: the same limits with plain hourly data must fail too
+        # (a chart whose curves leave the top after two vertices is refused by the geometry library)
+        plain = dict((k, v) for k, v in inp.items() if k not in ('coll', 'container', 'scalar_form', 'entry', 'num_form'))
+        plain['shape'] = '24'
+        second = _chart_run(plain)[0]
+        _cnt('charthist:unbuildable')
+        if not _sub('charthist_builds', isinstance(second, tuple)):
+            return _fail('the chart is built from these inputs as it is from plain hourly collections', first[1],
+                         clause='charthist_builds', shape=inp.get('shape', '24'), coll=inp.get('coll', 'hourly'),
+                         entry=inp.get('entry', 'ctor'))
+        return None
+    shape_sig = inp.get('shape', '24') + ('' if inp.get('coll', 'hourly') == 'hourly' else ':' + inp['coll'])
     seen = {}
+    _cnt('branch:chart_ip' if use_ip else 'branch:chart_si')
+    _cnt('branch:chart_single_temperature' if inp.get('shape', '24') in ('scalar_t', 'one') else 'branch:chart_many_t')
+
+    def state(x, y):
+        """chart coordinates -> (dry bulb in C, humidity ratio)"""
+        t = tmin + (x - bx) / xd
+        return ((t - 32.) * 5. / 9. if use_ip else t), (y - by) / yd
+
+    def t_at(rh_line, hr):
+        """dry bulb (C) at which the curve of rh_line has the humidity ratio hr (bisection on the real function)"""
+        a, b = -80.0, 99.0
+        for _ in range(70):
+            m = (a + b) / 2.0
+            if ps.humid_ratio_from_db_rh(m, rh_line, p) > hr:
+                b = m
+            else:
+                a = m
+        return a
+
     for i, (name, arg, res) in enumerate(recs):
         key = _json.dumps([name, arg])
         if name.startswith('bad_'):
             continue                     # a refused call: only its effect on the later reads matters
-        want_vals = _chart_expected(par, tv, rv, name, arg)
+        want_vals = _chart_expected(par, tv, rv, name, arg, hrmax)
         if want_vals is not None:
             want = ('vals', [float(v) for v in want_vals])
             if name == 'border' and res[0] == 'vals' and len(res[1]) == len(want[1]) + 2:
                 # the fifth vertex (end of the saturation line at the top of the chart) is drawn geometry
                 res = ('vals', res[1][:len(want[1])])
+                _cnt('branch:border_5_vertices')
+            elif name == 'border':
+                _cnt('branch:border_4_vertices')
         else:
             want = _chart_do(_chart_make(inp), name, arg)        # first read of a fresh chart
         ok = _same_outcome(want, res)
         _sub('charthist_read', ok)
         if not ok:
             return _fail('read %d (%s %r) of the chart = %r' % (i, name, arg, _short(want)), _short(res),
-                         clause='charthist_read', read=name, ip=use_ip, shape=inp.get('shape', '24'),
+                         clause='charthist_read', read=name, ip=use_ip, shape=shape_sig,
                          repeated=key in seen)
         if key in seen and not _sub('charthist_repeat', _same_outcome(seen[key], res, 0.0)):
             return _fail('read %d (%s) equals the earlier read of the same question' % (i, name), _short(res),
                          clause='charthist_repeat', read=name, ip=use_ip)
         seen[key] = res
-        # curves of constant relative humidity: every vertex below the top of the chart is a state of that rh
-        if res[0] == 'vals' and name in ('rh_lines', 'sat'):
-            vals = res[1]
+        if res[0] != 'vals':
+            continue
+        vals = res[1]
+        # curves of constant relative humidity: every vertex below the top of the chart is a state of that rh;
+        # the cut-off vertex at the top is the state (rh, maximum humidity ratio)
+        if name in ('rh_lines', 'sat'):
             lines = []
             if name == 'sat':
                 lines.append((100.0, vals))
@@ -1912,18 +2079,82 @@ def _check_chart_history(inp):
                     lines.append((10.0 * (k + 1), vals[j + 1:j + 1 + 2 * m]))
                     j += 1 + 2 * m
                     k += 1
-            top = by + 0.03 * yd
+            top = by + hrmax * yd
             for rh_line, xy in lines:
+                cut = False
                 for a in range(0, len(xy), 2):
                     x, y = xy[a], xy[a + 1]
+                    tc, hr = state(x, y)
                     if y >= top - 1e-9 * max(1.0, abs(top), abs(yd)):
-                        continue                        # the cut-off point at the maximum humidity ratio
-                    t = tmin + (x - bx) / xd
-                    tc = (t - 32.) * 5. / 9. if use_ip else t
-                    back = ps.rel_humid_from_db_hr(tc, (y - by) / yd, p)
+                        cut = True
+                        want_t = t_at(rh_line, hrmax)
+                        tol = ANTOINE_TOL if want_t > 0 else 3.5     # db_temp_from_rh_hr: open finding below 0 C
+                        if not _sub('chart_rh_curve_cutoff', abs(tc - want_t) <= tol and a == len(xy) - 2):
+                            return _fail('the last vertex (%r, %r) of the %g %% curve is the state of that relative '
+                                         'humidity with the maximum humidity ratio %r: dry bulb %r C (within %g C)'
+                                         % (x, y, rh_line, hrmax, want_t, tol), tc, clause='chart_rh_cutoff',
+                                         read=name, ip=use_ip)
+                        continue
+                    back = ps.rel_humid_from_db_hr(tc, hr, p)
                     if not _sub('chart_rh_curve', abs(back - rh_line) <= HR_RH_BOUND * rh_line + 1e-6):
                         return _fail('vertex (%r, %r) of the %g %% curve is a state of that relative humidity' %
                                      (x, y, rh_line), back, clause='chart_rh_curve', read=name, ip=use_ip)
+                _cnt('branch:rhline_cutoff' if cut else 'branch:rhline_no_cutoff')
+        # lines of constant enthalpy: both end points are states of the labelled enthalpy (kJ/kg with reference
+        # 0 C; Btu/lb with reference 0 F on IP charts); the drawn line is straight, the exact curve bends by
+        # 1.86 * w * t <= 1300 * max_humidity_ratio^2 kJ/kg (1.2 at 0.03) between its ends
+        if name == 'enth':
+            n = len(vals) // 7
+            ref = -160. / 9. if use_ip else 0.0
+            for k in range(n):
+                lab = vals[4 * n + k] * (2.326 if use_ip else 1.0)
+                for x, y in ((vals[4 * k], vals[4 * k + 1]), (vals[4 * k + 2], vals[4 * k + 3])):
+                    tc, hr = state(x, y)
+                    e = 1.006 * (tc - ref) + hr * (2501. + 1.86 * (tc - ref))
+                    if not _sub('chart_enthalpy_line', abs(e - lab) <= 1300. * max(hrmax, 0.03) ** 2 + 0.1):
+                        return _fail('end point (%r, %r) of the enthalpy line labelled %r is a state of that enthalpy '
+                                     '(%r kJ/kg above the reference %r C, within the bend of the exact curve)' % (x, y, vals[4 * n + k], lab, ref),
+                                     e, clause='chart_enth_line', ip=use_ip, hrmax_default=hrmax == 0.03)
+            _cnt('branch:enth_lines_%s' % ('some' if n else 'none'))
+        # lines of constant wet bulb: straight lines of db_temp_and_hr_from_wb_rh through the saturation state
+        if name == 'wb':
+            n = len(vals) // 7
+            for k in range(n):
+                lab = vals[4 * n + k]
+                wc = (lab - 32.) * 5. / 9. if use_ip else lab
+                for x, y in ((vals[4 * k], vals[4 * k + 1]), (vals[4 * k + 2], vals[4 * k + 3])):
+                    tc, hr = state(x, y)
+                    want_t = ps.db_temp_and_hr_from_wb_rh(wc, ps.rel_humid_from_db_hr(wc, hr, p), p)[0]
+                    if not _sub('chart_wet_bulb_line', abs(tc - want_t) <= 0.02):
+                        return _fail('end point (%r, %r) of the wet-bulb line labelled %r: the dry bulb of its humidity '
+                                     'ratio %r on that line is %r C (db_temp_and_hr_from_wb_rh)' % (x, y, lab, hr, want_t),
+                                     tc, clause='chart_wb_line', ip=use_ip)
+        # lines of constant humidity ratio: horizontal at y(label), from the right border to the saturation curve
+        if name == 'hr_lines':
+            n = len(vals) // 5
+            for k in range(n):
+                lab = vals[4 * n + k]
+                y_want = by + yd * lab
+                x1, y1, x2, y2 = vals[4 * k:4 * k + 4]
+                ok = abs(y1 - y_want) <= 1e-9 * max(1, abs(y_want)) and abs(y2 - y_want) <= 1e-9 * max(1, abs(y_want))
+                if ok and x2 > bx + 1e-9 * max(1.0, abs(bx)):
+                    want_t = t_at(100.0, lab)
+                    ok = abs(state(x2, y2)[0] - want_t) <= (ANTOINE_TOL if want_t > 0 else 3.5)
+                if not _sub('chart_hr_line', ok):
+                    return _fail('humidity-ratio line %r runs at y = %r from the saturation curve' % (lab, y_want),
+                                 [x1, y1, x2, y2], clause='chart_hr_line', ip=use_ip)
+        # mesh of hours: every vertex lies on the base line or on a curve of 5, 10, ... 100 % relative humidity
+        if name == 'mesh':
+            for a in range(0, len(vals), 2):
+                x, y = vals[a], vals[a + 1]
+                if abs(y - by) <= 1e-12 * max(1.0, abs(by)):
+                    continue
+                tc, hr = state(x, y)
+                back = ps.rel_humid_from_db_hr(tc, hr, p)
+                near = 5.0 * round(back / 5.0)
+                if not _sub('chart_mesh_vertex', 5.0 <= near <= 100.0 and abs(back - near) <= HR_RH_BOUND * near + 1e-6):
+                    return _fail('mesh vertex (%r, %r) is a state with a relative humidity of 5, 10 ... 100 %%' % (x, y),
+                                 back, clause='chart_mesh_vertex', ip=use_ip)
     return None
 
 
@@ -1951,6 +2182,18 @@ _FN = {
     'dpt_db_wb': ('dew_point_from_db_wb', 3, (101325.0,)),
     'dpt_fast': ('dew_point_from_db_rh_fast', 2, ()),
     'wb_fast': ('wet_bulb_from_db_rh_fast', 3, (101325.0,)),
+}
+_KW = {     # documented parameter names (docstrings of psychrometrics.py)
+    'svp': ('t_kelvin',), 'dlnpws': ('db_temp',), 'hr_db_rh': ('db_temp', 'rel_humid', 'b_press'),
+    'enth': ('db_temp', 'humid_ratio', 'reference_temp'), 'rh_db_hr': ('db_temp', 'humid_ratio', 'b_press'),
+    'rh_db_enth': ('db_temp', 'enthalpy', 'b_press', 'reference_temp'), 'rh_db_dpt': ('db_temp', 'dew_pt'),
+    'rh_db_wb': ('db_temp', 'wet_bulb', 'b_press'), 'hr_db_wb': ('db_temp', 'wb_temp', 'b_press'),
+    'db_enth_hr': ('enthalpy', 'humid_ratio', 'reference_temp'), 'db_rh_hr': ('rel_humid', 'humid_ratio', 'b_press'),
+    'db_hr_wb_rh': ('wb_temp', 'rel_humid', 'b_press'), 'dpt_db_rh': ('db_temp', 'rel_humid'),
+    'wb_db_rh': ('db_temp', 'rel_humid', 'b_press'), 'wb_db_hr': ('db_temp', 'humid_ratio', 'b_press'),
+    'dpt_db_hr': ('db_temp', 'humid_ratio', 'b_press'), 'dpt_db_enth': ('db_temp', 'enthalpy', 'b_press', 'reference_temp'),
+    'dpt_db_wb': ('db_temp', 'wet_bulb', 'b_press'), 'dpt_fast': ('db_temp', 'rel_humid'),
+    'wb_fast': ('db_temp', 'rel_humid', 'b_press'),
 }
 _SOLVERS = ('dpt_db_rh', 'wb_db_rh', 'wb_db_hr', 'dpt_db_hr', 'dpt_db_enth', 'dpt_db_wb', 'wb_fast')
 
@@ -2038,6 +2281,10 @@ def _call_history(rng, n, ctx=None):
         if fn == 'svp' and args[0] == 0 or (fn in ('db_rh_hr',) and (args[0] <= 0 or args[1] < 1e-12)):
             continue
         out.append({'fn': fn, 'args': args})
+        if rng.random() < 0.10:
+            out[-1]['kw'] = True          # the same call with the documented keywords, in reverse order
+            if ctx is not None:
+                ctx.count('calls:keywords')
         if ctx is not None:
             ctx.count('calls:' + tag)
         if rng.random() < 0.1:
@@ -2059,6 +2306,9 @@ def _call_line(c):
 def _call_raw(c):
     from ladybug import psychrometrics as ps
     f = getattr(ps, _FN[c['fn']][0])
+    if c.get('kw'):
+        kw = dict(reversed(list(zip(_KW[c['fn']], c['args']))))
+        return _impl_vals(lambda: f(**kw))
     return _impl_vals(lambda: f(*c['args']))
 
 
@@ -2138,6 +2388,7 @@ def _worker_main():
                 out.append(None)
         else:
             del _SUB[:]
+            del _CNT[:]
             try:
                 res = check_case(op, inp)
             except Exception as e:
@@ -2341,7 +2592,10 @@ def _order_slice(rng, n_state, n_hist):
         cases.append(['derivative', {'db': _db(rng)}])
     for _ in range(n_hist):
         cases.append(['dd_history', _dd_history_case(rng)])
-        cases.append(['chart_history', _chart_history_case(rng)])
+        ch = _chart_history_case(rng)
+        if 'hrmax' in ch:
+            ch['hrmax'] = 0.03            # (another maximum: open finding C09-enthalpy-lines-ignore-max-humidity-ratio)
+        cases.append(['chart_history', ch])
         st = _dd_history_case(rng)['init']
         cases.append(['dd_entry', {'state': st}])
     cases.append(['continuity', {}])
@@ -2366,7 +2620,7 @@ def _rarity(case):
 
 def _oracle_cases_r3(ctx, big):
     rng = ctx.rng
-    for c in R3_FIXED:
+    for c in R3_FIXED + R4_FIXED:
         yield c
     n = 1500 if big else 120
     for _ in range(n * 4):
@@ -2376,11 +2630,13 @@ def _oracle_cases_r3(ctx, big):
     for _ in range(n // 3):
         st = _dd_history_case(rng)['init']
         ctx.count('ddentry:' + st['type'])
-        yield 'dd_entry', {'state': st}
+        style = rng.choice([None, 'exp', 'crlf', 'oneline', 'pad'])
+        ctx.count('ddentry:style:' + str(style))
+        yield 'dd_entry', {'state': st, 'style': style}
     for _ in range(n // 6):
         db = rng.choice([rng.uniform(25, 42), rng.uniform(-25, 5)])
         yield 'dd_ashrae', {'db': db, 'wb': db - rng.uniform(0.5, 12.0), 'dbr': rng.choice([0.0, rng.uniform(4, 14)]),
-                            'p': rng.choice([None, None, _p(rng)])}
+                            'p': rng.choice([None, None, _p(rng)]), 'alt': rng.random() < 0.4}
     for _ in range(n * 3 // 4):
         yield 'chart_history', _chart_history_case(rng, ctx)
     # one process, several call histories; and the same oracle stream in fresh processes in different orders
@@ -2492,37 +2748,338 @@ def _chart_compare_model(ctx, tag, inp, results):
     use_ip, bx, by, xd, yd, tmin, tmax, p = par
     tv, rv = _chart_inputs(inp)
     head = [bx, by, xd, yd, float(tmin), p]
-    lines, want = [], []
+    hrmax = inp.get('hrmax', 0.03)
+    temps = [float(t) for t in list(range(int(tmin), int(tmax), 5)) + [int(tmax)]]
+    lines, want, kinds = [], [], []
     for (name, arg), res in zip(inp['reads'], results):
         if name == 'plot':
             lines.append(['plot %s %s' % ('1' if use_ip else '0', ' '.join(_fbits(x) for x in head + [arg[0], arg[1]]))])
-            want.append(res)
         elif name == 'data_points':
             lines.append(['datapt %s %s' % ('1' if use_ip else '0', ' '.join(_fbits(x) for x in head + [t, r]))
                           for t, r in zip(tv, rv)])
-            want.append(res)
+        elif name == 'rh_lines':
+            # relative_humidity_polyline(rh, 1) for rh = 10 .. 100: the vertices below the cut-off (Model/PsychroChart)
+            lines.append(['rhline %s %s' % ('1' if use_ip else '0',
+                                            ' '.join(_fbits(x) for x in head + [hrmax, float(rh)] + temps))
+                          for rh in range(10, 110, 10)])
+        else:
+            continue
+        want.append(res)
+        kinds.append(name)
     flat = [ln for grp in lines for ln in grp]
     if not flat:
         return
     outs = ctx.driver().run(flat)
     pos = 0
-    for grp, res in zip(lines, want):
+    for grp, res, kind in zip(lines, want, kinds):
         o = outs[pos:pos + len(grp)]
         pos += len(grp)
         ctx.compared += 1
-        ctx.count('op:' + tag)
+        ctx.count('op:' + tag + (':rh_lines' if kind == 'rh_lines' else ''))
         ctx.case((tag, grp[0], len(grp)), nontrivial=res[0] == 'vals')
-        mv = []
-        for x in o:
-            v = _model_vals(x)
-            if not isinstance(v, list):
-                mv = None
-                break
-            mv.extend(v)
-        if res[0] == 'vals':
-            ok = mv is not None and len(mv) == len(res[1]) and all(_close(a, b, 1e-12) for a, b in zip(mv, res[1]))
+        per = [_model_vals(x) if x != 'ok' else [] for x in o]
+        if kind == 'rh_lines':
+            ok = res[0] == 'vals' and all(isinstance(v, list) for v in per)
+            if ok:
+                vals, j = res[1], 0
+                for mv in per:
+                    if j >= len(vals):
+                        ok = False
+                        break
+                    m = int(vals[j])
+                    real = vals[j + 1:j + 1 + 2 * m]
+                    j += 1 + 2 * m
+                    k = len(mv) // 2
+                    if k == len(temps):          # the curve never reaches the top: all vertices
+                        same = real
+                        ok = ok and m == k
+                    else:                        # below the cut-off (the code may drop the last one), then the cut-off
+                        same = real[:-2]
+                        ok = ok and m in (k, k + 1)
+                    ok = ok and all(_close(x, y, 1e-12) for x, y in zip(same, mv)) and len(same) <= len(mv)
+                ok = ok and j == len(vals)
+            mv = per
         else:
-            ok = mv is None
+            mv = []
+            for v in per:
+                if not isinstance(v, list):
+                    mv = None
+                    break
+                mv.extend(v)
+            if res[0] == 'vals':
+                ok = mv is not None and len(mv) == len(res[1]) and all(_close(a, b, 1e-12) for a, b in zip(mv, res[1]))
+            else:
+                ok = mv is None
         if not ok:
             ctx.disagree(tag, {'history': inp, 'read': grp[0][:80]}, repr(mv)[:300], repr(res)[:300])
             return
+
+
+# =============================================================================================
+# ROUND 4: input shapes, aliasing / returned containers, override gaps (every concrete class), conventions
+# between caller and callee, numeric edges, rarely taken branches.
+#
+# Concrete classes that reach the anchored code and are exercised (kind e):
+#   PsychrometricChart(temperature, relative_humidity): HourlyContinuousCollection (hourly and sub-hourly
+#   timestep 2 / 4), HourlyDiscontinuousCollection (unsorted, repeated datetimes), DailyCollection, the three
+#   immutable twins, plain numbers (float, int, text '20.5', ' 2.05e1 ', padded), entry points constructor and
+#   from_dict (hand-written dictionary, keys in reverse insertion order, numbers as text where float() accepts them);
+#   HumidityCondition / DryBulbCondition / DesignDay have no subclasses; the sibling "fast" formulas are compared
+#   with the model only (they are not part of the statement).
+# Branches of the anchored functions (kind j) and the counted stratum that reaches each (`branch:*` counters):
+#   saturated_vapor_pressure  t <= 273.15 / else ............. branch:svp_ice, branch:svp_water
+#   _d_ln_p_ws                db <= 0 / else ................. branch:dlnpws_ice, branch:dlnpws_water
+#   enthalpy_from_db_hr       enthalpy >= 0 / clamp to 0 ..... branch:enth_positive, branch:enth_clamped
+#   dew_point_from_db_rh      except ValueError (rh <= 0) .... branch:dpt_no_vapour
+#                             Newton converged ............... branch:dpt_newton
+#                             min(td, db) takes db ........... branch:dpt_clamped_to_db (rh >= 100)
+#                             index > 100 .................... branch:dpt_iteration_limit (nan input only)
+#   wet_bulb_from_db_rh       loop not entered ............... branch:wb_loop_skipped (within 0.1 C of saturation)
+#                             w_star > humid_ratio both ways . branch:wb_bisect
+#                             index >= 100 ................... branch:wb_iteration_limit (infinite bracket only)
+#   humid_ratio_from_db_wb    wb >= 0 / else ................. branch:hr_wb_water, branch:hr_wb_ice
+#   dew_point_from_db_rh_fast except ValueError .............. branch:dpt_fast_no_vapour
+#   wet_bulb_from_db_rh_fast  e_d == 0 break: not reachable with generated floats (needs an exact zero residual);
+#                             sign change / no sign change ... branch:wb_fast (both in every solve)
+#   HumidityCondition.dew_point            4 types ........... ddhist:type:*, dd:*; fall-through (unknown type) is
+#                                                              unreachable through the validating setter
+#   hourly_dew_point_values   db >= max_dpt / else ........... branch:dd_hour_uncapped, branch:dd_hour_capped
+#   from_idf                  field 10 empty / HumidityRatio / Enthalpy ... ddhist:entry:idf x type
+#   from_ashrae_dict_*        pressure None / given, use_990 / use_010 ... ddashrae:*
+#   PsychrometricChart.__init__  single temperature / use_ip / number or collection / Daily or hourly
+#                                ............................. branch:chart_single_temperature, branch:chart_ip,
+#                                                              charthist:coll:*, charthist:scalar_form:*
+#   relative_humidity_polyline   subdivisions 1 / 2 .......... reads rh_lines / sat; cut-off at the top or not:
+#                                branch:rhline_cutoff, branch:rhline_no_cutoff (the `del pts[-1]` sub-branch is not
+#                                visible from outside and not counted separately)
+#   _compute_border              max_hr > hmax / else ........ branch:border_5_vertices, branch:border_4_vertices
+#   _compute_enthalpy_range / _compute_wb_range  2 / 1 / 0 intersections: branch:enth_lines_*, read `wb`
+#   _compute_hour_values         value outside the chart ..... refused_first 'offchart' and generated data beyond range
+# Caller / callee conventions (kind g) checked against relations that do not share the code path:
+#   relative_humidity_polyline -> db_temp_from_rh_hr(rh %, kg/kg, Pa) -> C -> F : chart_rh_cutoff
+#   hr_lines -> db_temp_from_rh_hr(100, label) : chart_hr_line
+#   _compute_enthalpy_range -> db_temp_from_enth_hr(kJ/kg | Btu/lb -> kJ/kg, hr, reference 0 C | 0 F) : chart_enth_line
+#   _compute_wb_range -> db_temp_and_hr_from_wb_rh(C from F, %, Pa) : chart_wb_line
+#   _generate_mesh -> humid_ratio_from_db_rh(C from F, %, Pa) : chart_mesh_vertex
+#   HumidityCondition.dew_point -> dew_point_from_db_enth(kJ/kg from J/kg) etc.: dd_history / dd_entry (round 3)
+#   psychrometrics.py called by keyword as documented (calls:keywords)
+# Aliasing (kind f): every list / dict / collection a design day hands out is edited in place and the reads are
+#   asked again (edit_hdpv, edit_hdb, edit_hp, edit_dict, edit_coll, keep); dictionaries are built in reverse
+#   insertion order; one-shot iterables as collection values are refused by the collections themselves
+#   (TypeError in _check_values on the unchanged tree) and appear as refused constructions before the reads.
+
+_CHART_R4_KEYS = ('coll', 'container', 'scalar_form', 'hrmax', 'entry', 'num_form', 'tfrac')
+_COLL_KINDS = ('hourly', 'hourly_im', 'disc', 'disc_im', 'daily', 'daily_im', 'sub2', 'sub4')
+_SCALAR_FORMS = ('float', 'int', 'str', 'str_exp', 'str_pad')
+
+
+def _chart_r4_shape(rng, inp, ctx=None):
+    """Round-4 variations of one chart history (kept in the input, so that the replay rebuilds the same chart)."""
+    shape = inp['shape']
+    inp['coll'] = rng.choice(_COLL_KINDS)
+    inp['container'] = rng.choice(['list', 'tuple'])
+    inp['scalar_form'] = rng.choice(_SCALAR_FORMS)
+    inp['hrmax'] = rng.choice([0.03, 0.03, 0.03, 0.03, 0.02, 0.025, 0.0285, 0.04, 0.029, 0.035])
+    inp['entry'] = rng.choice(['ctor', 'ctor', 'dict'])
+    inp['num_form'] = rng.choice(['float', 'str', 'str_exp'])
+    tmin, tmax = inp['par'][5], inp['par'][6]
+    if rng.random() < 0.3:
+        # fractional chart limits: the chart keeps int(limit), i.e. the limit truncated towards zero
+        fa, fb = rng.choice([0.5, 0.25, 0.999]), rng.choice([0.5, 0.75, 0.001])
+        inp['tfrac'] = [fa if tmin >= 0 else -fa, fb if tmax >= 0 else -fb]
+    if inp['scalar_form'] == 'int':
+        if shape in ('scalar_t', 'one'):
+            inp['t'] = [float(round(inp['t'][0]))] + list(inp['t'][1:])
+        if shape in ('scalar_rh', 'one'):
+            inp['rh'] = [float(round(inp['rh'][0]))] + list(inp['rh'][1:])
+    if inp['hrmax'] != 0.03:
+        # plotted points on the data read of `plot` stay valid; nothing else depends on the maximum
+        pass
+    if ctx is not None:
+        ctx.count('charthist:coll:' + inp['coll'])
+        ctx.count('charthist:container:' + inp['container'])
+        ctx.count('charthist:entry:' + inp['entry'])
+        ctx.count('charthist:hrmax:%g' % inp['hrmax'])
+        ctx.count('charthist:num_form:' + inp['num_form'])
+        if shape != '24':
+            ctx.count('charthist:scalar_form:' + inp['scalar_form'])
+        if 'tfrac' in inp:
+            ctx.count('charthist:fractional_limits')
+    return inp
+
+
+def _num_form(v, form):
+    if form == 'int':
+        return int(v)
+    if form == 'str':
+        return repr(float(v))
+    if form == 'str_exp':
+        return ' %.17e' % float(v)
+    if form == 'str_pad':
+        return '\t %r \n' % float(v)
+    return v
+
+
+def _r4_collection(kind, temperature, vals, container):
+    from ladybug import datacollection as dc
+    from ladybug.header import Header
+    from ladybug.analysisperiod import AnalysisPeriod
+    from ladybug.datatype.temperature import DryBulbTemperature
+    from ladybug.datatype.fraction import RelativeHumidity
+    from ladybug.dt import DateTime
+    dtype, unit = (DryBulbTemperature(), 'C') if temperature else (RelativeHumidity(), '%')
+    seq = tuple(vals) if container == 'tuple' else list(vals)
+    base = kind.split('_')[0]
+    n = len(seq)
+    if base == 'hourly':
+        c = dc.HourlyContinuousCollection(Header(dtype, unit, AnalysisPeriod(1, 1, 0, 1, 1, 23)), seq)
+    elif base in ('sub2', 'sub4'):
+        c = dc.HourlyContinuousCollection(Header(dtype, unit, AnalysisPeriod(1, 1, 0, 1, 1, 23, int(base[3:]))), seq)
+    elif base == 'disc':
+        dts = [DateTime(1 + (7 * i) % 12, 1 + (5 * i) % 28, (11 * i) % 24) for i in range(n)]   # unsorted
+        dts[-1] = dts[0]                                                                          # and repeated
+        c = dc.HourlyDiscontinuousCollection(Header(dtype, unit, AnalysisPeriod()), seq, dts)
+    else:
+        c = dc.DailyCollection(Header(dtype, unit, AnalysisPeriod()), seq, [1 + (37 * i) % 365 for i in range(n)])
+    return c.to_immutable() if kind.endswith('_im') else c
+
+
+def _chart_make_r4(inp):
+    from ladybug.psychchart import PsychrometricChart
+    from ladybug_geometry.geometry2d.pointvector import Point2D
+    use_ip, bx, by, xd, yd, tmin, tmax, p = tuple(inp['par'])
+    tv, rv = _chart_inputs(inp)
+    shape, coll, cont = inp.get('shape', '24'), inp.get('coll', 'hourly'), inp.get('container', 'list')
+    sform, nform = inp.get('scalar_form', 'float'), inp.get('num_form', 'float')
+    hrmax = inp.get('hrmax', 0.03)
+    fr = inp.get('tfrac', [0, 0])
+    t_in = _num_form(tv[0], sform) if shape in ('scalar_t', 'one') else _r4_collection(coll, True, tv, cont)
+    r_in = _num_form(rv[0], sform) if shape in ('scalar_rh', 'one') else _r4_collection(coll, False, rv, cont)
+    lo, hi = (tmin + fr[0], tmax + fr[1]) if 'tfrac' in inp else (tmin, tmax)
+    if inp.get('entry', 'ctor') == 'dict':
+        # a dictionary written by hand, keys in reverse order of the documented layout
+        d = [('type', 'PsychrometricChart'), ('use_ip', use_ip), ('max_humidity_ratio', _num_form(hrmax, nform)),
+             ('max_temperature', hi), ('min_temperature', lo), ('y_dim', _num_form(yd, nform)),
+             ('x_dim', _num_form(xd, nform)), ('base_point', {'type': 'Point2D', 'y': by, 'x': bx}),
+             ('average_pressure', _num_form(p, nform)),
+             ('relative_humidity', r_in.to_dict() if hasattr(r_in, 'to_dict') else r_in),
+             ('temperature', t_in.to_dict() if hasattr(t_in, 'to_dict') else t_in)]
+        return PsychrometricChart.from_dict(dict(d))
+    return PsychrometricChart(t_in, r_in, _num_form(p, nform), None, Point2D(bx, by), _num_form(xd, nform),
+                              _num_form(yd, nform), lo, hi, _num_form(hrmax, nform), use_ip)
+
+
+def _corr_round4(ctx):
+    """Numeric edges (kind h) and the counted branch strata (kind j) of psychrometrics.py against the model."""
+    from ladybug import psychrometrics as ps
+    rng = ctx.rng
+    tol, stol = 1e-12, 1e-9
+
+    def L(op):
+        return lambda c: op + ' ' + ' '.join(_fbits(x) for x in c)
+
+    # magnitudes 1e-12 .. 1e+16 (with fractional factors) of every argument that is not a temperature
+    c_hr, c_e, c_p, c_rh = [], [], [], []
+    for k in range(-12, 17):
+        for f in (1.0, 1.5, 0.9999999999999999, 2.0 ** 0.5):
+            m = 10.0 ** k * f
+            db, p = _db(rng), _p(rng)
+            c_hr.append((db, m, p))
+            c_e.append((db, m, p, _ref(rng)))
+            c_p.append((db, _rh(rng), m))
+            c_rh.append((db, m, p))
+            ctx.count('magnitude:1e%+03d' % k)
+    c_hr = [c for c in c_hr if c[1] != 0]
+    _compare(ctx, 'rh_db_hr', c_hr, L('rh_db_hr'), lambda c: ps.rel_humid_from_db_hr(*c), tol)
+    _compare(ctx, 'dpt_db_hr', c_hr, L('dpt_db_hr'), lambda c: ps.dew_point_from_db_hr(*c), stol)
+    _compare(ctx, 'wb_db_hr', c_hr, L('wb_db_hr'), lambda c: ps.wet_bulb_from_db_hr(*c), stol)
+    _compare(ctx, 'enth', [(c[0], c[1], c[3]) for c in c_e], L('enth'), lambda c: ps.enthalpy_from_db_hr(*c), tol)
+    _compare(ctx, 'rh_db_enth', c_e, L('rh_db_enth'), lambda c: ps.rel_humid_from_db_enth(*c), tol)
+    _compare(ctx, 'dpt_db_enth', c_e, L('dpt_db_enth'), lambda c: ps.dew_point_from_db_enth(*c), stol)
+    _compare(ctx, 'db_enth_hr', [(c[1], 0.01, c[3]) for c in c_e], L('db_enth_hr'),
+             lambda c: ps.db_temp_from_enth_hr(*c), tol)
+    _compare(ctx, 'hr_db_rh', c_p + c_rh, L('hr_db_rh'), lambda c: ps.humid_ratio_from_db_rh(*c), tol)
+    _compare(ctx, 'wb_db_rh', c_p + c_rh, L('wb_db_rh'), lambda c: ps.wet_bulb_from_db_rh(*c), stol)
+    _compare(ctx, 'hr_db_wb', [(c[0], c[0] - 1.0, c[2]) for c in c_p], L('hr_db_wb'),
+             lambda c: ps.humid_ratio_from_db_wb(*c), tol)
+    _compare(ctx, 'rh_db_wb', [(c[0], c[0] - 1.0, c[2]) for c in c_p], L('rh_db_wb'),
+             lambda c: ps.rel_humid_from_db_wb(*c), tol)
+    _compare(ctx, 'dpt_db_rh', [(c[0], c[1]) for c in c_rh], L('dpt_db_rh'), lambda c: ps.dew_point_from_db_rh(*c), stol)
+
+    # one counted stratum per branch of the anchored functions (see the ROUND 4 header)
+    nan, inf = float('nan'), float('inf')
+    n = ctx.n(60, 600)
+    svp, dln, enth, dpt, wb, hrwb, fast = [], [], [], [], [], [], []
+    for _ in range(n):
+        db, rh, p = _db(rng), _rh(rng), _p(rng)
+        t = db + 273.15
+        svp.append((t,))
+        ctx.count('branch:svp_ice' if t <= 273.15 else 'branch:svp_water')
+        dln.append((db,))
+        ctx.count('branch:dlnpws_ice' if db <= 0.0 else 'branch:dlnpws_water')
+        ref = rng.choice([0.0, 30.0, -17.78, db + 5.0])
+        hr = rng.choice([0.0, 1e-4, 0.01])
+        e = 1.006 * (db - ref) + hr * (2501. + 1.86 * (db - ref))
+        enth.append((db, hr, ref))
+        ctx.count('branch:enth_positive' if e >= 0 else 'branch:enth_clamped')
+        r = rng.choice([rh, rh, 0.0, -1.0, 100.0, 100.0000001, 130.0, 99.9, 99.99, 99.5])
+        dpt.append((db, r))
+        ctx.count('branch:dpt_no_vapour' if r <= 0 else ('branch:dpt_clamped_to_db' if r >= 100 else 'branch:dpt_newton'))
+        wb.append((db, r, p))
+        d = _impl_vals(lambda: ps.dew_point_from_db_rh(db, r))
+        ctx.count('branch:wb_loop_skipped' if isinstance(d, list) and db - d[0] <= 0.1 else 'branch:wb_bisect')
+        w = rng.choice([db - rng.uniform(0, 5), 0.0, -0.0, 1e-15, -1e-15])
+        hrwb.append((db, w, p))
+        ctx.count('branch:hr_wb_water' if w >= 0 else 'branch:hr_wb_ice')
+        fast.append((db, rng.choice([rh, 0.0])))
+        ctx.count('branch:dpt_fast_no_vapour' if fast[-1][1] == 0 else 'branch:dpt_fast_value')
+    # iteration limits: only reachable with a not-a-number / infinite bracket
+    dpt += [(20.0, nan), (nan, 50.0)]
+    wb += [(inf, 50.0, 101325.0), (1e300, 50.0, 101325.0), (20.0, nan, 101325.0)]
+    for _ in range(2):
+        ctx.count('branch:dpt_iteration_limit')
+    for _ in range(3):
+        ctx.count('branch:wb_iteration_limit')
+    _compare(ctx, 'svp', svp, L('svp'), lambda c: ps.saturated_vapor_pressure(*c), tol)
+    _compare(ctx, 'dlnpws', dln, L('dlnpws'), lambda c: ps._d_ln_p_ws(*c), tol)
+    _compare(ctx, 'enth', enth, L('enth'), lambda c: ps.enthalpy_from_db_hr(*c), tol)
+    _compare(ctx, 'dpt_db_rh', dpt, L('dpt_db_rh'), lambda c: ps.dew_point_from_db_rh(*c), stol)
+    _compare(ctx, 'wb_db_rh', wb, L('wb_db_rh'), lambda c: ps.wet_bulb_from_db_rh(*c), stol)
+    _compare(ctx, 'hr_db_wb', hrwb, L('hr_db_wb'), lambda c: ps.humid_ratio_from_db_wb(*c), tol)
+    _compare(ctx, 'dpt_fast', fast, L('dpt_fast'), lambda c: ps.dew_point_from_db_rh_fast(*c), tol)
+
+
+R4_FIXED = [
+    # open finding C09-enthalpy-lines-ignore-max-humidity-ratio
+    ('chart_history', {'par': [False, 0.0, 0.0, 1.0, 1500.0, -20, 50, 101325.0],
+                       't': [20.0 + i / 2.0 for i in range(24)], 'rh': [30.0 + 2.0 * i for i in range(24)],
+                       'shape': '24', 'reads': [['enth', None]], 'refused_first': None, 'hrmax': 0.02}),
+    # every curve family of an IP chart built from one temperature given as text and a daily immutable collection
+    ('chart_history', {'par': [True, 10.0, -5.0, 1.5, 1200.0, 0, 110, 84000.0],
+                       't': [21.0] + [20.0 + i / 2.0 for i in range(23)], 'rh': [5.0 + 4.0 * i for i in range(24)],
+                       'shape': 'scalar_t', 'coll': 'daily_im', 'container': 'tuple', 'scalar_form': 'str_exp',
+                       'hrmax': 0.03, 'entry': 'dict', 'num_form': 'str', 'tfrac': [0.5, 0.75], 'refused_first': None,
+                       'reads': [['data_points', None], ['rh_lines', None], ['sat', None], ['enth', None], ['wb', None],
+                                 ['hr_lines', None], ['mesh', None], ['border', None], ['tlines', None],
+                                 ['plot', [69.8, 50]], ['redict', None], ['data_points', None]]}),
+    ('chart_history', {'par': [False, 0.0, 0.0, 1.0, 1500.0, -20, 30, 101325.0],           # border with 4 vertices
+                       't': [float(i) for i in range(24)], 'rh': [50.0] * 24, 'shape': '24', 'coll': 'disc',
+                       'container': 'list', 'scalar_form': 'float', 'hrmax': 0.03, 'entry': 'ctor',
+                       'num_form': 'float', 'refused_first': None,
+                       'reads': [['border', None], ['rh_lines', None], ['sat', None], ['enth', None], ['wb', None],
+                                 ['hr_lines', None], ['mesh', None]]}),
+    # the lists a design day hands out are edited by the caller between the reads
+    ('dd_history', {'entry': 'ctor', 'twin': None, 'style': 'pad',
+                    'init': {'type': 'Wetbulb', 'value': 23.0, 'p': 84000.0, 'db_max': 32.0, 'db_range': 11.0},
+                    'ops': [[0, 'hdew', None], [0, 'edit_hdpv', None], [0, 'hdew', None], [0, 'edit_hdb', None],
+                            [0, 'hrh', None], [0, 'hdb', None], [0, 'edit_hp', None], [0, 'hp', None],
+                            [0, 'edit_dict', None], [0, 'dict', None], [0, 'hrh', None], [0, 'edit_coll', None],
+                            [0, 'hdew', None], [0, 'keep', None], [0, 'hrh', None]]}),
+    ('dd_entry', {'state': {'type': 'HumidityRatio', 'value': 9.5e-05, 'p': 101325.0, 'db_max': -12.0, 'db_range': 3.0},
+                  'style': 'exp'}),
+    ('dd_entry', {'state': {'type': 'Enthalpy', 'value': 65432.1, 'p': 90000.0, 'db_max': 30.0, 'db_range': 9.0},
+                  'style': 'oneline'}),
+    ('dd_entry', {'state': {'type': 'Wetbulb', 'value': 18.25, 'p': 101325.0, 'db_max': 28.5, 'db_range': 9.0},
+                  'style': 'crlf'}),
+    ('dd_ashrae', {'db': 33.1, 'wb': 24.2, 'dbr': 10.4, 'p': 84000.0, 'alt': True}),
+]
